@@ -244,6 +244,7 @@ func (s *c01Summ) noWriteOnEdge(e an.CondEdge, call *ssa.Call) bool {
 }
 
 func runC01(c *an.Ctx) {
+	c01JSONRequest(c)
 	// ---- R15: the recycled filtering context never carries the previous request's rewritten question
 	c.Floor("C01-R15", 5)
 	sharedPoolInitSweep(c, "C01-R15", "dnssvc/internal/mainmw.filteringContext", "filter/internal.Request", "filter/internal.Response")
@@ -972,4 +973,104 @@ func c01Writers(c *an.Ctx) {
 			},
 		})
 	}
+}
+
+// c01JSONRequest is the table of the JSON API's request construction: the
+// question is built from the query parameters as they were sent (the name only
+// made fully qualified, so that the response's question equals the request's on
+// this transport as on every other), and each malformed parameter is an error.
+func c01JSONRequest(c *an.Ctx) {
+	c.Floor("C01-R16", 1)
+	decide(c, "C01-R16", "dnsserver.httpRequestToMsgJSON", an.DecideCfg{
+		Dom: an.Domain{`(name == "")`: an.Bools, "typeerr": an.Bools, "classerr": an.Bools, "cderr": an.Bools, "doerr": an.Bools, "sdeerr": an.Bools},
+		OnCall: func(it *an.Interp, name string, args []an.AV) (an.AV, bool) {
+			tup := func(v an.AV, k string) an.AV {
+				if it.Feature(k).IsTrue() {
+					return an.AV{Kind: an.KTuple, Tup: []an.AV{an.CInt(0), an.NonNil("paramErr")}}
+				}
+				return an.AV{Kind: an.KTuple, Tup: []an.AV{v, an.Nil()}}
+			}
+			switch {
+			case name == "(*net/url.URL).Query":
+				return an.NonNil("q"), true
+			case name == "(net/url.Values).Get":
+				if args[1].String() == `"name"` {
+					return an.Sym("name"), true
+				}
+				return an.Sym("param(" + args[1].String() + ")"), true
+			case strings.HasSuffix(name, "dnsserver.urlQueryParameterToUint16"):
+				switch args[1].String() {
+				case `"type"`:
+					return tup(an.Sym("qtype"), "typeerr"), true
+				case `"qc"`:
+					return tup(an.Sym("qclass"), "classerr"), true
+				}
+				return an.Sym("another numeric parameter"), true
+			case strings.HasSuffix(name, "dnsserver.urlQueryParameterToBoolean"):
+				k := map[string]string{`"cd"`: "cderr", `"do"`: "doerr", `"sde"`: "sdeerr"}[args[1].String()]
+				if k == "" {
+					return an.Sym("another boolean parameter"), true
+				}
+				return tup(an.Sym("flag("+args[1].String()+")"), k), true
+			case strings.HasSuffix(name, "dns.Fqdn"):
+				return an.Sym("fqdn(" + args[0].String() + ")"), true
+			case strings.HasSuffix(name, "dns.Id"):
+				return an.Sym("newid"), true
+			case strings.HasSuffix(name, "dnsserver.setEDNSFromQuery"):
+				return an.Nil(), true
+			case strings.HasSuffix(name, "dns.Msg).Pack"):
+				return an.AV{Kind: an.KTuple, Tup: []an.AV{an.NonNil("packed(" + args[0].String() + ")"), an.Nil()}}, true
+			}
+			return an.AV{}, false
+		},
+		Expect: func(f an.Features, o an.AOutcome) string {
+			if len(o.Ret) != 2 {
+				return "a (bytes, err) result"
+			}
+			bad := f.B(`(name == "")`)
+			if !bad {
+				for _, k := range []string{"typeerr", "classerr", "cderr", "doerr", "sdeerr"} {
+					if f.B(k) {
+						bad = true
+						break
+					}
+				}
+			}
+			if bad {
+				if o.Ret[0].Kind == an.KNil && o.Ret[1].Kind != an.KNil {
+					return ""
+				}
+				return "an error for a missing name or a malformed parameter; got " + o.RetString()
+			}
+			// the message that is packed
+			var msg string
+			for _, e := range o.Effects {
+				if e.Kind == "call" && strings.HasSuffix(e.Name, "dns.Msg).Pack") {
+					msg = strings.TrimPrefix(e.Args[0], "&")
+				}
+			}
+			if msg == "" {
+				return "the built message packed"
+			}
+			var q string
+			for k, v := range o.Mem {
+				if strings.HasSuffix(k, ".Name") && strings.Contains(v.String(), "name") {
+					q = strings.TrimSuffix(k, ".Name")
+					if v.String() != "fqdn(name)" {
+						return "the question name taken from the name parameter unchanged apart from the trailing dot (no case folding: the response must carry the question as asked); got " + v.String()
+					}
+				}
+			}
+			if q == "" {
+				return "the question name set from the name parameter"
+			}
+			if o.Mem[q+".Qtype"].String() != "qtype" || o.Mem[q+".Qclass"].String() != "qclass" {
+				return "question type and class from the type and qc parameters; got " + o.Mem[q+".Qtype"].String() + ", " + o.Mem[q+".Qclass"].String()
+			}
+			if got := o.Mem[msg+".MsgHdr.CheckingDisabled"].String(); got != `flag("cd")` {
+				return "the CD flag from the cd parameter; got " + got
+			}
+			return ""
+		},
+	})
 }
